@@ -425,8 +425,35 @@ func CheckC10(w *World, s *Snapshot) []V {
 		if d != hv.Recorded {
 			out = append(out, V{"C10", "c10.view-changed", fmt.Sprintf("view %s opened after event %d answers differently now:\n--- at opening\n%s\n--- now\n%s", hv.Name, hv.OpenedAt, hv.Recorded, d)})
 		}
+		// the tags of its streams are part of a view's answers
+		if t, err := ViewTags(hv.View); err != nil {
+			if !strings.HasPrefix(hv.RecordedTags, "error: ") {
+				out = append(out, V{"C10", "c10.view-error", fmt.Sprintf("view %s opened after event %d, asking for the tags of its streams: %v", hv.Name, hv.OpenedAt, err)})
+			}
+		} else if t != hv.RecordedTags {
+			out = append(out, V{"C10", "c10.view-tags-changed", fmt.Sprintf("view %s opened after event %d shows other tags for its streams now:\n--- at opening\n%s\n--- now\n%s", hv.Name, hv.OpenedAt, hv.RecordedTags, t)})
+		}
 	}
 	return out
+}
+
+// ViewTags asks a view for the tags of every stream it shows (all tags prefetched) and for a search by tag.
+func ViewTags(v *manager.View) (string, error) {
+	var lines []string
+	err := v.AllStreams(context.Background(), func(sc manager.StreamContext) error {
+		tags, err := sc.AllTags()
+		if err != nil {
+			return err
+		}
+		sort.Strings(tags)
+		lines = append(lines, fmt.Sprintf("%d [%s]", sc.Stream().ID(), strings.Join(tags, ",")))
+		return nil
+	}, manager.PrefetchAllTags())
+	if err != nil {
+		return "", err
+	}
+	sort.Strings(lines)
+	return strings.Join(lines, "\n"), nil
 }
 
 // CheckViewComplete compares what a view shows when it is opened with the one-shot import of the
